@@ -309,7 +309,7 @@ def snapshot(sim) -> dict:
         "cell": dig(np.ascontiguousarray(np.array(a.cell)).tobytes()),
         "momenta": dig(np.ascontiguousarray(a.get_momenta()).tobytes()),
         "constraints": repr([c.todict() for c in a.constraints]),
-        "rng": dig(repr(sim._rng.bit_generator.state).encode()),
+        "rng": dig(repr(common.get_rng(sim).bit_generator.state).encode()),
     }
     ctx = getattr(sim, "context", None)
     if ctx is not None:
